@@ -16,7 +16,7 @@ LEVEL = "exploration"
 BUDGET = {"quick": (2500, 35), "thorough": (600_000, 540)}
 RULE = ("lifecycle histories: pre-set sys/threading trace functions in {none, recording tracer} x NO_TRACE in {unset, "
         "True} x start [start] [hits] shutdown [shutdown] x faults during shutdown (0-3 pending sends failing or "
-        "delayed 0-8 s, poll errors, 0-2 of 3 plugins raising in shutdown, 0-2 application threads still hitting "
+        "delayed 0-8 s, poll errors, a poll in flight for 3-25 s, 0-2 of 3 plugins raising in shutdown, 0-2 application threads still hitting "
         "tracepoints) x seeded schedules; non-trivial = a shutdown with at least one fault or a pre-existing hook; "
         "distinct = distinct scenarios x thread order")
 COMPONENTS = {"real": ["whole Deep agent incl. Deep.start/shutdown, TriggerHandler.start/shutdown, LongPoll, RepeatedTimer, "
@@ -50,13 +50,14 @@ def generate(seed, tier):
             "hits_before": r.randrange(0, 4), "pending": [r.choice(("ok", "error", "slow")) for _ in range(r.randrange(0, 4))],
             "poll_errors": r.random() < 0.3, "plugin_shutdown_raises": sorted(r.sample((0, 1, 2), r.choice((0, 0, 1, 2)))),
             "bg_threads": r.choice((0, 0, 1, 2)), "kind": r.choice(("snapshot", "log", "metric", "span")),
+            "poll_in_flight": r.choice((None, None, 3.0, 15.0, 25.0)),
             "knobs": common.draw_knobs(r, stall_p=0.0)}
 
 
 def shrink_candidates(s):
     for key, simple in (("pre_sys", False), ("pre_thread", False), ("start_twice", False), ("shutdown_twice", False),
                         ("poll_errors", False), ("bg_threads", 0), ("hits_before", 0), ("plugin_shutdown_raises", []),
-                        ("pending", [])):
+                        ("pending", []), ("poll_in_flight", None)):
         if s[key] != simple:
             yield dict(s, **{key: simple})
 
@@ -94,7 +95,17 @@ def execute(s, ch):
         _rt.settrace(want_thr)
         for i in s["plugin_shutdown_raises"]:
             w.sink.faults.setdefault("LifeP%d" % i, {})["shutdown"] = "all"
-        if s["poll_errors"]:
+        in_flight = {"v": False}
+        if s.get("poll_in_flight"):
+            # a slow service: the timer's first poll takes poll_in_flight seconds and then publishes a new configuration
+            def slow(idx):
+                if idx == 1:
+                    in_flight["v"] = True
+                    w.service.set_config([w.service.make_tp("late", "nowhere.py", 1, {}, [])], "h-late")
+                    return {"delay": s["poll_in_flight"]}
+                return None
+            w.service.poll_faults = slow
+        elif s["poll_errors"]:
             w.service.poll_faults = lambda idx: {"kind": "error"} if idx >= 1 else None
         slow = {"n": 0}
 
@@ -173,6 +184,11 @@ def execute(s, ch):
         effects_before = (len(w.pushed), len([c for c in w.sink.calls if c[2] in ("log_tracepoint", "counter", "create_span")]))
         if not s["no_trace"] and n_hits and effects_before == (0, 0) and not bgs:
             viol.append(V("harness-no-effect-before-shutdown", str(effects_before)))
+        if s.get("poll_in_flight"):
+            # shut down while the timer's poll is on the wire
+            k.block_until(lambda: in_flight["v"], k.now_ns + 12 * 10**9, why="await-poll-in-flight")
+            k.sleep(0.2)
+        hash_at_shutdown = None
         # ------------------------------------------------ shutdown (with faults in flight)
         try:
             w.deep.shutdown()
@@ -182,6 +198,11 @@ def execute(s, ch):
             viol.append(V("shutdown-raised:%s" % type(e).__name__, "%r (plugins raising in shutdown %s, pending %s)" % (
                 e, s["plugin_shutdown_raises"], s["pending"])))
         check_hooks("after-shutdown", False)
+        alive_now = [t.name for t in k.threads if t.name == "Tracepoint Long Poll" and k.alive(t)]
+        if alive_now:
+            viol.append(V("shutdown-returned-while-poll-thread-alive", "poll in flight for %ss; threads %s" % (
+                s.get("poll_in_flight"), alive_now)))
+        hash_at_shutdown = w.config.tracepoints.current_hash
         if w.deep.started:
             viol.append(V("still-started-after-shutdown", ""))
         if s["shutdown_twice"]:
@@ -218,12 +239,14 @@ def execute(s, ch):
                           "shutdown returned" % (len(w.pushed) - mark_p, [c[2] for c in acts][:4], threads)))
         if len(w.service.polls) > mark_polls:
             viol.append(V("polls-after-shutdown", "%d polls" % (len(w.service.polls) - mark_polls)))
+        if w.config.tracepoints.current_hash != hash_at_shutdown:
+            viol.append(V("configuration-changed-after-shutdown", "hash %r -> %r" % (hash_at_shutdown, w.config.tracepoints.current_hash)))
         alive = [t.name for t in k.threads if t.name == "Tracepoint Long Poll" and k.alive(t)]
         if alive:
             viol.append(V("timer-alive-after-shutdown", str(alive)))
         check_hooks("35s-after-shutdown", False)
         info["nontrivial"] = bool(s["pre_sys"] or s["pre_thread"] or s["pending"] or s["plugin_shutdown_raises"]
-                                  or s["bg_threads"] or s["poll_errors"])
+                                  or s["bg_threads"] or s["poll_errors"] or s.get("poll_in_flight"))
         sys.settrace(None)
         _rt.settrace(None)
         w.close()
